@@ -100,7 +100,8 @@ class C13(TalCheck):
                 if not y["same_function"] or y["site"] is None:
                     continue
                 cover.add("error-position-checked")
-                units = [(o["line"], o["col"]) for o in self._units(occ, y["site"])]
+                units = [(o["line"], o["col"])
+                         for o in self._units(occ, y["site"], y.get("oid"))]
                 if (x["lineno"], x["offset"]) not in units:
                     vs.append({
                         "kind": "error-position", "sig": "error-position",
@@ -116,8 +117,15 @@ class C13(TalCheck):
         return vs
 
     @staticmethod
-    def _units(occ: list, k: int) -> list:
-        idx = next(i for i, o in enumerate(occ) if o.get("probe") == k)
+    def _units(occ: list, k: int, oid=None) -> list:
+        # (the same expression text may stand at several positions: the
+        # model says which occurrence failed)
+        idx = None
+        if oid is not None:
+            idx = next((i for i, o in enumerate(occ)
+                        if o.get("oid") == oid), None)
+        if idx is None:
+            idx = next(i for i, o in enumerate(occ) if o.get("probe") == k)
         out = []
         while idx is not None:
             out.append(occ[idx])
